@@ -7,6 +7,7 @@ import (
 	"encoding/json"
 	"errors"
 	"fmt"
+	"math"
 	"os"
 	"path/filepath"
 	"strings"
@@ -356,9 +357,13 @@ func genCfg(t *rapid.T) scenarioCfg {
 		c.SCap = uint(rapid.IntRange(1, 6).Draw(t, "scap"))
 		c.ST = uint(rapid.IntRange(1, int(c.SCap)).Draw(t, "st"))
 	}
-	if rapid.IntRange(0, 5).Draw(t, "bigDelay") == 0 {
+	switch bd := rapid.IntRange(0, 11).Draw(t, "bigDelay"); {
+	case bd == 0:
+		// "open until closed by hand": delays near the end of the int64 range must not wrap around
+		c.Delay = rapid.SampledFrom([]int64{math.MaxInt64, math.MaxInt64 - 1, 1 << 62, math.MaxInt64 / 2}).Draw(t, "delayHuge")
+	case bd <= 2:
 		c.Delay = rapid.Int64Range(0, int64(time.Hour)).Draw(t, "delayBig")
-	} else {
+	default:
 		c.Delay = rapid.Int64Range(0, 30).Draw(t, "delay")
 	}
 	sc := scenarioCfg{CB: c, Conds: rapid.IntRange(0, 2).Draw(t, "conds"), DelayFunc: rapid.Bool().Draw(t, "delayFunc")}
@@ -392,6 +397,9 @@ func genOp(t *rapid.T, w *world) op {
 		p := c.Period
 		rem := w.m.Remaining(w.now)
 		advs := []string{"rem", "rem-1", "rem+1", "1", "rand"}
+		if rem > 1<<60 {
+			advs = []string{"1", "rand"} // the virtual clock itself must stay far from the end of the range
+		}
 		if p != 0 {
 			advs = append(advs, "slice", "slice-1", "toSlice", "toSlice-1", "0.9p-1", "0.9p", "0.9p+1", "period-1", "period", "period+1", "many")
 		}
